@@ -411,8 +411,10 @@ def ws_automaton(msgs):
                 verdict = "unjudged"
         elif t == "websocket.http.response.start":
             if state == "HANDSHAKE":
-                verdict = "unjudged" if not _hdrs_ok(m.get("headers", [])) else "valid"
-                state = "HS_PENDING" if verdict == "valid" else "HS_PENDING_BAD"
+                # header names or values that are not bytes, pseudo-headers: the message that carries them is the invalid one - the error
+                # belongs to it, not to the (valid) body message that follows
+                verdict = "invalid" if not _hdrs_ok(m.get("headers", [])) else "valid"
+                state = "HS_PENDING" if verdict == "valid" else "UNKNOWN"
             elif state == "HS_PENDING":
                 verdict = "invalid"  # "a second response start"
             else:
